@@ -156,6 +156,27 @@ func (fi *fnInfo) expandGuards(gs []guard) []guard {
 	seen := map[ssa.Value]bool{}
 	for i := 0; i < len(gs); i++ {
 		g := gs[i]
+		// "callee == f" (made by the canonicaliser for a call through a phi of functions): the guards of the one
+		// incoming edge that carries f (or, negated with two alternatives, of the one that does not)
+		if x, fn, isFT := funcEqTest(g.cond); isFT && !seen[g.cond] {
+			seen[g.cond] = true
+			if phi, isPhi := x.(*ssa.Phi); isPhi {
+				feasible, n := -1, 0
+				for j, ev := range phi.Edges {
+					if (funcConstOf(ev) == fn) == g.pol && funcConstOf(ev) != nil {
+						feasible = j
+						n++
+					} else if funcConstOf(ev) == nil {
+						n = 99
+					}
+				}
+				if n == 1 {
+					pred := phi.Block().Preds[feasible]
+					gs = append(gs, fi.rawGuardsOfEdge(edge{pred, succIndex(pred, phi.Block())})...)
+				}
+			}
+			continue
+		}
 		phi, ok := g.cond.(*ssa.Phi)
 		if !ok || seen[phi] {
 			continue
@@ -1139,6 +1160,11 @@ func (p *pathState) branch(b *ssa.BasicBlock, i int) (ssa.Value, bool, *pathStat
 	}
 	if bv, isC := constBool(cond); isC {
 		return cond, pol, p, bv == pol
+	}
+	if x, fn, isFT := funcEqTest(cond); isFT {
+		if got := funcConstOf(p.resolve(x)); got != nil {
+			return cond, pol, p, (got == fn) == pol
+		}
 	}
 	if x, nonNilWhenTrue, isNilTest := errNilTest(cond); isNilTest {
 		rx := p.resolve(x)
